@@ -90,6 +90,16 @@ Definition RnsToMixedRadix_int (primes ck residu : list Z) : list Z :=
   | p0 :: ps, r0 :: rs => map snd (rev (mr_loop_int [(p0, r0)] (todo_of ps rs (tl ck))))
   | _, _ => []
   end.
+(* how the first digit is produced is READ FROM THE SOURCE by the check:
+     mixrad[0] = residu[0];                                  -> head_reduced = false  (unrepaired: any representative is copied)
+     mixrad[0] = residu[0]; modin(mixrad[0], _primes[0]);    -> head_reduced = true                                        *)
+Definition reduce_head (primes residu : list Z) : list Z :=
+  match primes, residu with
+  | p0 :: _, r0 :: rs => (r0 mod p0) :: rs
+  | _, _ => residu
+  end.
+Definition RnsToMixedRadix_int_h (head_reduced : bool) (primes ck residu : list Z) : list Z :=
+  RnsToMixedRadix_int primes ck (if head_reduced then reduce_head primes residu else residu).
 Definition RnsToMixedRadix_dom (primes ck residu : list Z) : list Z :=
   match primes, residu with
   | p0 :: ps, r0 :: rs => map snd (rev (mr_loop_dom [(p0, r0)] (todo_of ps rs (tl ck))))
@@ -141,9 +151,25 @@ Definition ComputeCk_dom := ComputeCk_with ck_prod_dom.
 (* ------------------------------------------------------------------------------------------
    The system objects.  The reciprocals _ck and the product _prod are computed by the constructors that receive the
    primes (and by setPrimes); the const accessors product() / Reciprocals() / reciprocal(i) only read them (since
-   a42d959; before, they were filled lazily from the accessors).  RnsToMixedRadix still calls ComputeCk() when _ck is
-   empty, and ComputeCk() / ComputeProd() keep their guards ("_ck non-empty" / "_prod not one" = already computed). *)
+   a42d959).  RnsToMixedRadix still calls ComputeCk() when _ck is empty, and ComputeCk() / ComputeProd() keep their
+   guards ("_ck non-empty" / "_prod not one" = already computed).
+   An object is the record of the data members the class has; copy construction and assignment act MEMBER BY MEMBER as
+   the source says (facts read from the clang AST / the source text by the check and passed in as parameters), setPrimes
+   is the statement list of its body.  A conversion on an object without primes (or with too few residues / digits) has
+   no defined answer in the code (it indexes an empty array, or throws): the model returns None there. *)
 Record IntRNS := mkIntRNS { i_primes : list Z; i_prod : Z; i_ck : list Z }.
+Inductive imember := IMprimes | IMprod | IMck.
+Definition imember_eqb (a b : imember) : bool :=
+  match a, b with IMprimes, IMprimes | IMprod, IMprod | IMck, IMck => true | _, _ => false end.
+Definition imem (m : imember) (l : list imember) : bool := existsb (imember_eqb m) l.
+
+(* which member of the source a copy constructor uses to initialise _ck (givintrns.h: _ck(R._ck) as of the unchanged tree) *)
+Inductive cksrc := FromPrimes | FromCk | FromNothing.
+(* how the templated converting constructor sizes _ck in its initialiser list: _ck(0) = CkEmpty; _ck(inprimes.size()) = CkSized,
+   a table of default-constructed (zero) Integers that ComputeCk() then takes for "already computed" *)
+Inductive ckinit := CkEmpty | CkSized.
+(* the facts about the IntRNSsystem source the object model depends on *)
+Record isrc := mkIsrc { is_copy : cksrc; is_tt : ckinit; is_assign : list imember; is_head : bool }.
 
 (* ComputeCk(): if (_ck.size() != 0) return; if (size == 0) return; ... *)
 Definition int_ensure_ck (S : IntRNS) : IntRNS :=
@@ -157,40 +183,56 @@ Definition int_ensure_prod (S : IntRNS) : IntRNS :=
 
 (* IntRNSsystem(const array& primes): _primes(primes), _prod(one), _ck(0) { ComputeProd(); ComputeCk(); } *)
 Definition int_mk (primes : list Z) : IntRNS := int_ensure_ck (int_ensure_prod (mkIntRNS primes 1 [])).
-(* the templated converting constructor IntRNSsystem(const Container<TT,Alloc<TT>>&): same body after the element-wise
-   conversion.  How its initialiser list sizes _ck is READ FROM THE SOURCE by the check:  _ck(0) = CkEmpty (the unchanged
-   tree);  _ck(inprimes.size()) = CkSized, i.e. a table of default-constructed (zero) Integers that ComputeCk() then takes
-   for "already computed" *)
-Inductive ckinit := CkEmpty | CkSized.
+(* the templated converting constructor: same body after the element-wise conversion *)
 Definition int_mk_tt (ci : ckinit) (primes : list Z) : IntRNS :=
   int_ensure_ck (int_ensure_prod
     (mkIntRNS primes 1 (match ci with CkEmpty => [] | CkSized => repeat 0 (length primes) end))).
 (* IntRNSsystem(): _primes(0), _prod(one), _ck(0) *)
 Definition int_default : IntRNS := mkIntRNS [] 1 [].
-
-(* which member of the source a copy constructor uses to initialise _ck; READ FROM THE SOURCE by the check
-   (givintrns.h:  _ck(R._ck)   as of the unchanged tree) *)
-Inductive cksrc := FromPrimes | FromCk | FromNothing.
+(* IntRNSsystem(const IntRNSsystem& R) : _primes(R._primes), _prod(R._prod), _ck(<cksrc>) *)
 Definition int_copy (src : cksrc) (R : IntRNS) : IntRNS :=
   mkIntRNS (i_primes R) (i_prod R)
            (match src with FromPrimes => i_primes R | FromCk => i_ck R | FromNothing => [] end).
-(* implicit operator=: memberwise *)
-Definition int_assign (dst src : IntRNS) : IntRNS := src.
+(* operator=: every member in `ms` is assigned from the source, the others keep the value of the target
+   (implicit operator=: all data members, read from the AST) *)
+Definition int_assign (ms : list imember) (dst src : IntRNS) : IntRNS :=
+  mkIntRNS (if imem IMprimes ms then i_primes src else i_primes dst)
+           (if imem IMprod ms then i_prod src else i_prod dst)
+           (if imem IMck ms then i_ck src else i_ck dst).
 
 (* product() const { return _prod; } *)
 Definition int_product (S : IntRNS) : IntRNS * Z := (S, i_prod S).
-
-(* RnsToMixedRadix: if (_ck.size()==0) ComputeCk(); ... *)
-Definition int_RnsToMixedRadix (S : IntRNS) (residu : list Z) : IntRNS * list Z :=
-  let S' := int_ensure_ck S in (S', RnsToMixedRadix_int (i_primes S') (i_ck S') residu).
-Definition int_RnsToRing (S : IntRNS) (residu : list Z) : IntRNS * Z :=
-  let '(S', mix) := int_RnsToMixedRadix S residu in (S', MixedRadixToRing (i_primes S') mix).
-Definition int_RingToRns (S : IntRNS) (a : Z) : list Z := RingToRns (i_primes S) a.
 (* Reciprocals() const { return _ck; } *)
 Definition int_Reciprocals (S : IntRNS) : IntRNS * list Z := (S, i_ck S).
+Definition int_RingToRns (S : IntRNS) (a : Z) : list Z := RingToRns (i_primes S) a.
+
+(* the conversions index _primes[0] / mixrad[size-1] / residu[i], i < size: defined only for size >= 1 and enough input *)
+Definition enough (primes input : list Z) : bool :=
+  match primes with [] => false | _ => (length primes <=? length input)%nat end.
+(* RnsToMixedRadix: if (mixrad.size() < size) resize; if (_ck.size()==0) ComputeCk(); ... *)
+Definition int_RnsToMixedRadix (hr : bool) (S : IntRNS) (residu : list Z) : IntRNS * option (list Z) :=
+  let S' := int_ensure_ck S in
+  (S', if enough (i_primes S') residu then Some (RnsToMixedRadix_int_h hr (i_primes S') (i_ck S') residu) else None).
+(* MixedRadixToRing(res, mixrad) const: reads mixrad[0 .. size-1] (an oversized digit array is fine) *)
+Definition int_MixedRadixToRing (S : IntRNS) (mixrad : list Z) : option Z :=
+  if enough (i_primes S) mixrad then Some (MixedRadixToRing (i_primes S) mixrad) else None.
+(* RnsToRing: array mixrad(_primes.size()); RnsToMixedRadix(mixrad, rns); MixedRadixToRing(I, mixrad)
+   (mixrad has exactly _primes.size() entries: MixedRadixToRing is defined whenever RnsToMixedRadix was) *)
+Definition int_RnsToRing (hr : bool) (S : IntRNS) (residu : list Z) : IntRNS * option Z :=
+  let '(S', mix) := int_RnsToMixedRadix hr S residu in (S', option_map (MixedRadixToRing (i_primes S')) mix).
 
 (* RNSsystem<RING,Domain>: { _primes; _ck } *)
 Record DomRNS := mkDomRNS { d_primes : list Z; d_ck : list Z }.
+Inductive dmember := DMprimes | DMck.
+Definition dmember_eqb (a b : dmember) : bool :=
+  match a, b with DMprimes, DMprimes | DMck, DMck => true | _, _ => false end.
+Definition dmem (m : dmember) (l : list dmember) : bool := existsb (dmember_eqb m) l.
+(* the statements of setPrimes(const domains& inprimes), in source order *)
+Inductive set_stmt := SAllocPrimes0 | SCopyPrimes | SResizeCk0 | SComputeCk.
+(* the facts about the RNSsystem source the object model depends on: members the copy constructor copies (the others are
+   default-constructed), members operator= assigns, statement list of setPrimes *)
+Record dsrc := mkDsrc { ds_copy : list dmember; ds_assign : list dmember; ds_set : list set_stmt }.
+
 Definition dom_ensure_ck (S : DomRNS) : DomRNS :=
   match d_ck S with
   | [] => mkDomRNS (d_primes S) (ComputeCk_dom (d_primes S))
@@ -200,14 +242,38 @@ Definition dom_ensure_ck (S : DomRNS) : DomRNS :=
 Definition dom_mk (primes : list Z) : DomRNS := dom_ensure_ck (mkDomRNS primes []).
 Definition dom_default : DomRNS := mkDomRNS [] [].
 (* RNSsystem(const Self_t& R) : _primes(R._primes, givWithCopy()), _ck(R._ck, givWithCopy()) *)
-Definition dom_copy (R : DomRNS) : DomRNS := mkDomRNS (d_primes R) (d_ck R).
-Definition dom_assign (dst src : DomRNS) : DomRNS := src.
-(* setPrimes: _primes.allocate(0); _primes.copy(inprimes); _ck.resize(0); ComputeCk(); *)
-Definition dom_setPrimes (S : DomRNS) (primes : list Z) : DomRNS := dom_ensure_ck (mkDomRNS primes []).
-Definition dom_RnsToMixedRadix (S : DomRNS) (residu : list Z) : DomRNS * list Z :=
-  let S' := dom_ensure_ck S in (S', RnsToMixedRadix_dom (d_primes S') (d_ck S') residu).
-Definition dom_RnsToRing (S : DomRNS) (residu : list Z) : DomRNS * Z :=
-  let '(S', mix) := dom_RnsToMixedRadix S residu in (S', MixedRadixToRing (d_primes S') mix).
+Definition dom_copy (ms : list dmember) (R : DomRNS) : DomRNS :=
+  mkDomRNS (if dmem DMprimes ms then d_primes R else []) (if dmem DMck ms then d_ck R else []).
+(* operator= (implicit: Array0::operator= on both members) *)
+Definition dom_assign (ms : list dmember) (dst src : DomRNS) : DomRNS :=
+  mkDomRNS (if dmem DMprimes ms then d_primes src else d_primes dst) (if dmem DMck ms then d_ck src else d_ck dst).
+(* setPrimes: _primes.allocate(0); _primes.copy(inprimes); _ck.resize(0); ComputeCk();  - statement by statement *)
+Definition dom_set_step (inprimes : list Z) (S : DomRNS) (st : set_stmt) : DomRNS :=
+  match st with
+  | SAllocPrimes0 => mkDomRNS [] (d_ck S)
+  | SCopyPrimes => mkDomRNS inprimes (d_ck S)
+  | SResizeCk0 => mkDomRNS (d_primes S) []
+  | SComputeCk => dom_ensure_ck S
+  end.
+Definition dom_setPrimes (prog : list set_stmt) (S : DomRNS) (inprimes : list Z) : DomRNS :=
+  fold_left (dom_set_step inprimes) prog S.
+Definition set_prog_repo : list set_stmt := [SAllocPrimes0; SCopyPrimes; SResizeCk0; SComputeCk].
+Definition dmembers_all : list dmember := [DMprimes; DMck].
+Definition dsrc_repo : dsrc := mkDsrc dmembers_all dmembers_all set_prog_repo.
+
+Definition dom_RnsToMixedRadix (S : DomRNS) (residu : list Z) : DomRNS * option (list Z) :=
+  let S' := dom_ensure_ck S in
+  (S', if enough (d_primes S') residu then Some (RnsToMixedRadix_dom (d_primes S') (d_ck S') residu) else None).
+(* MixedRadixToRing: if (!Size) [throw] GivError; if (Size != mixrad.size()) throw GivError; ...   no answer in both cases *)
+Definition dom_MixedRadixToRing (S : DomRNS) (mixrad : list Z) : option Z :=
+  match d_primes S with
+  | [] => None
+  | _ => if (length (d_primes S) =? length mixrad)%nat then Some (MixedRadixToRing (d_primes S) mixrad) else None
+  end.
+(* RnsToRing: array mixrad(_primes.size()) - exactly the right size, the size test of MixedRadixToRing cannot fire - ;
+   RnsToMixedRadix; MixedRadixToRing *)
+Definition dom_RnsToRing (S : DomRNS) (residu : list Z) : DomRNS * option Z :=
+  let '(S', mix) := dom_RnsToMixedRadix S residu in (S', option_map (MixedRadixToRing (d_primes S')) mix).
 Definition dom_RingToRns (S : DomRNS) (a : Z) : list Z := RingToRns (d_primes S) a.
 (* Reciprocals() const { return _ck; } *)
 Definition dom_Reciprocals (S : DomRNS) : DomRNS * list Z := (S, d_ck S).
@@ -244,13 +310,15 @@ Definition fixed_tree (primes : list Z) : list (list Z) := build_tree (length pr
 
 Definition tree_at (t : list (list Z)) (level col : nat) : Z := nth col (nth level t []) 0.
 
-(* RnsToRingLeft (left = true: result reduced mod _primes[level][col]) / RnsToRingRight *)
-Fixpoint fixed_rec (t : list (list Z)) (res : list Z) (left : bool) (level col : nat) : Z :=
+(* RnsToRingLeft (left = true: result reduced mod _primes[level][col]) / RnsToRingRight.
+   At level 0 both return residues[col]; whether RnsToRingLeft reduces it there is READ FROM THE SOURCE (leaf_reduced;
+   a left leaf is always an even column of level 0, i.e. an unmodified prime) *)
+Fixpoint fixed_rec (lr : bool) (t : list (list Z)) (res : list Z) (left : bool) (level col : nat) : Z :=
   match level with
-  | O => nth col res 0
+  | O => let r := nth col res 0 in if left && lr then r mod tree_at t 0 col else r
   | S l =>
-      let u0 := fixed_rec t res true l (2 * col) in
-      let u1 := fixed_rec t res false l (2 * col + 1) in
+      let u0 := fixed_rec lr t res true l (2 * col) in
+      let u1 := fixed_rec lr t res false l (2 * col + 1) in
       let I := (u1 - u0) * tree_at t l (2 * col + 1) + u0 in
       if left then I mod tree_at t (S l) col else I
   end.
@@ -263,12 +331,60 @@ Fixpoint fixed_odd_levels (t : list (list Z)) (level : nat) : list (nat * nat) :
   | lv :: tl => if Nat.odd (length lv) then (level, (length lv - 1)%nat) :: fixed_odd_levels tl (S level)
                 else fixed_odd_levels tl (S level)
   end.
-Definition fixed_RnsToRing (primes residues : list Z) : Z :=
+Definition fixed_mods (t : list (list Z)) : list Z :=
+  map (fun lc => tree_at t (fst lc) (snd lc)) (fixed_odd_levels t 0).
+Definition fixed_reds (lr : bool) (t : list (list Z)) (residues : list Z) : list Z :=
+  map (fun lc => fixed_rec lr t residues true (fst lc) (snd lc)) (fixed_odd_levels t 0).
+(* the conversion of a freshly constructed system, as a function of the primes *)
+Definition fixed_RnsToRing (lr : bool) (primes residues : list Z) : option Z :=
   let t := fixed_tree primes in
-  let odd := fixed_odd_levels t 0 in
-  let mods := map (fun lc => tree_at t (fst lc) (snd lc)) odd in
-  let reds := map (fun lc => fixed_rec t residues true (fst lc) (snd lc)) odd in
-  snd (dom_RnsToRing (dom_setPrimes dom_default mods) reds).
+  if enough primes residues then snd (dom_RnsToRing (dom_mk (fixed_mods t)) (fixed_reds lr t residues)) else None.
+
+(* the object: { tree _primes; RNS_t _RNS } *)
+Record FixRNS := mkFixRNS { f_tree : list (list Z); f_rns : DomRNS }.
+Inductive fmember := FMtree | FMrns.
+Definition fmember_eqb (a b : fmember) : bool := match a, b with FMtree, FMtree | FMrns, FMrns => true | _, _ => false end.
+Definition fmem (m : fmember) (l : list fmember) : bool := existsb (fmember_eqb m) l.
+(* facts about the source: members the copy constructor copies / operator= assigns, leaf reduction, and the RNSsystem facts *)
+Record fsrc := mkFsrc { fs_copy : list fmember; fs_assign : list fmember; fs_leaf : bool; fs_dom : dsrc }.
+(* RNSsystemFixed(const array& primes): builds the tree, then _RNS.setPrimes(Mods) *)
+Definition fix_mk (fs : fsrc) (primes : list Z) : FixRNS :=
+  let t := fixed_tree primes in mkFixRNS t (dom_setPrimes (ds_set (fs_dom fs)) dom_default (fixed_mods t)).
+Definition fix_default : FixRNS := mkFixRNS [] dom_default.
+Definition fix_copy (fs : fsrc) (R : FixRNS) : FixRNS :=
+  mkFixRNS (if fmem FMtree (fs_copy fs) then f_tree R else [])
+           (if fmem FMrns (fs_copy fs) then dom_copy (ds_copy (fs_dom fs)) (f_rns R) else dom_default).
+Definition fix_assign (fs : fsrc) (dst src : FixRNS) : FixRNS :=
+  mkFixRNS (if fmem FMtree (fs_assign fs) then f_tree src else f_tree dst)
+           (if fmem FMrns (fs_assign fs) then dom_assign (ds_assign (fs_dom fs)) (f_rns dst) (f_rns src) else f_rns dst).
+(* RnsToRing: Reds(_RNS.Primes().size()); one RnsToRingLeft per level of odd size; _RNS.RnsToRing(I, Reds) *)
+Definition fix_RnsToRing (fs : fsrc) (F : FixRNS) (residues : list Z) : FixRNS * option Z :=
+  let t := f_tree F in
+  let reds := fixed_reds (fs_leaf fs) t residues in
+  let '(R', v) := dom_RnsToRing (f_rns F) reds in
+  (mkFixRNS t R',
+   if enough (nth 0 t []) residues && (length (d_primes (f_rns F)) =? length reds)%nat then v else None).
+(* the histories of the harness (c14_rns.C: fresh, reuse, the assignments; c14_fixedcopy.C: the copies) *)
+Inductive fhist := FHfresh | FHreuse | FHassigncold | FHassignwarm | FHassigncc | FHcopycold | FHcopywarm | FHcopy2 | FHcopyassign.
+Definition fix_obtain (fs : fsrc) (h : fhist) (primes other : list Z) : FixRNS :=
+  let use ps F := fst (fix_RnsToRing fs F (repeat 1 (length ps))) in
+  match h with
+  | FHfresh => fix_mk fs primes
+  | FHreuse => use primes (fix_mk fs primes)
+  | FHassigncold => fix_assign fs fix_default (fix_mk fs primes)
+  | FHassignwarm => fix_assign fs (use other (fix_mk fs other)) (use primes (fix_mk fs primes))
+  | FHassigncc => fix_assign fs (use other (fix_mk fs other)) (fix_mk fs primes)
+  | FHcopycold => fix_copy fs (fix_mk fs primes)
+  | FHcopywarm => fix_copy fs (use primes (fix_mk fs primes))
+  | FHcopy2 => fix_copy fs (fix_copy fs (use primes (fix_mk fs primes)))
+  | FHcopyassign => fix_assign fs fix_default (fix_copy fs (fix_mk fs primes))
+  end.
+(* (V, V2, stored tree) of the object a history yields *)
+Definition fix_run (fs : fsrc) (h : fhist) (primes other residues : list Z) : option Z * option Z * list (list Z) :=
+  let F0 := fix_obtain fs h primes other in
+  let '(F1, v) := fix_RnsToRing fs F0 residues in
+  let '(F2, v2) := fix_RnsToRing fs F1 residues in
+  (v, v2, f_tree F2).
 
 (* ------------------------------------------------------------------------------------------
    Poly1CRT<Field> over GF(p): polynomials are coefficient lists, low degree first, entries in [0,p) *)
@@ -311,111 +427,139 @@ Definition poly_RnsToRing (p : Z) (pts rs : list Z) : list Z :=
 Definition poly_RingToRns (p : Z) (pts : list Z) (a : list Z) : list Z := map (peval p a) pts.
 
 (* ------------------------------------------------------------------------------------------
-   wrappers used by the extracted driver: a history is a list of constructor / copy / use events *)
+   wrappers used by the extracted driver.  One constructor per history of the harness (c14_rns.C); `other` is the
+   unrelated system the harness uses as assignment target / to warm caches.  Steps that change the SOURCE of a copy after
+   the copy was taken (copymod, the tail of assigncc) cannot reach a value copy: they are outside a Gallina model and
+   are exercised by the harness and the oracle only; the terms below contain everything that happens to the object itself. *)
 Inductive hist :=
-  | Hfresh | Hreuse | Hcopycold | Hcopywarm | Hcopy2 | Hassigncold | Hassignwarm | Hsetcold | Hsetwarm.
+  | Hfresh | Hreuse | Hcopycold | Hcopywarm | Hcopy2 | Hcopymod | Hassigncold | Hassignwarm | Hassignsame | Hassigncc
+  | Hsetcold | Hsetwarm | Hsetsame | Hsetback | Hdfltcopyset.
 
 Definition ones (n : nat) : list Z := repeat 1 n.
 
-(* the object each history of the harness yields; `other` is the unrelated system used to warm caches; `mk` is the
-   constructor the harness used for the system under test (plain, or templated from a container of native integers) *)
-Definition int_obtain (src : cksrc) (mk : list Z -> IntRNS) (h : hist) (primes other : list Z) : IntRNS :=
-  let warm S := fst (int_product (fst (int_RnsToRing S (ones (length (i_primes S)))))) in
+(* `mk` is the constructor the harness used for the system under test (plain, or templated from native integers) *)
+Definition int_obtain (f : isrc) (mk : list Z -> IntRNS) (h : hist) (primes other : list Z) : IntRNS :=
+  let use ps S := fst (int_RnsToRing (is_head f) S (ones (length ps))) in
+  let warm ps S := fst (int_product (use ps S)) in
   match h with
   | Hfresh => mk primes
-  | Hreuse => fst (int_RnsToRing (mk primes) (ones (length primes)))
-  | Hcopycold => int_copy src (mk primes)
-  | Hcopywarm => int_copy src (warm (mk primes))
-  | Hcopy2 => int_copy src (int_copy src (fst (int_RnsToRing (mk primes) (ones (length primes)))))
-  | Hassigncold => int_assign int_default (mk primes)
-  | Hassignwarm => int_assign (warm (int_mk other)) (warm (mk primes))
-  | Hsetcold | Hsetwarm => mk primes
+  | Hreuse => use primes (mk primes)
+  | Hcopycold => int_copy (is_copy f) (mk primes)
+  | Hcopywarm | Hcopymod => int_copy (is_copy f) (warm primes (mk primes))
+  | Hcopy2 => int_copy (is_copy f) (int_copy (is_copy f) (use primes (mk primes)))
+  | Hassigncold => int_assign (is_assign f) int_default (mk primes)
+  | Hassignwarm | Hassignsame => int_assign (is_assign f) (warm other (int_mk other)) (warm primes (mk primes))
+  | Hassigncc => int_assign (is_assign f) (fst (int_Reciprocals (warm other (int_mk other)))) (mk primes)
+  | Hsetcold | Hsetwarm | Hsetsame | Hsetback | Hdfltcopyset => mk primes          (* IntRNSsystem has no setPrimes *)
   end.
 
 (* the harness prints the reciprocals k = 1..n-1 reduced into [0, p_k) (gcdext's cofactor may be negative) *)
 Definition ck_canon (primes ck : list Z) : list Z := map (fun pc => snd pc mod fst pc) (tl (combine primes ck)).
 
+Definition obind {A B : Type} (o : option A) (k : A -> option B) : option B := match o with Some a => k a | None => None end.
+
 (* RingToRns of each integer of a list followed by RnsToRing of the residues just obtained, on one object *)
-Fixpoint int_back (S : IntRNS) (als : list Z) : IntRNS * list (list Z * Z) :=
+Fixpoint int_back (hr : bool) (S : IntRNS) (als : list Z) : IntRNS * option (list (list Z * Z)) :=
   match als with
-  | [] => (S, [])
+  | [] => (S, Some [])
   | a :: tl =>
       let rr := int_RingToRns S a in
-      let '(S1, w) := int_RnsToRing S rr in
-      let '(S2, rest) := int_back S1 tl in
-      (S2, (rr, w) :: rest)
+      let '(S1, w) := int_RnsToRing hr S rr in
+      let '(S2, rest) := int_back hr S1 tl in
+      (S2, obind w (fun w => obind rest (fun rest => Some ((rr, w) :: rest))))
   end.
 
 (* which entry point the harness calls FIRST on the object it obtained (the caches are observed before and after first use) *)
 Inductive first_op := Fmix | Fring | Frecip | Frecipi | Fprod | Frns.
 Definition last1 (l : list Z) : list Z := match rev l with [] => [] | x :: _ => [x] end.
-Definition int_first (o : first_op) (S : IntRNS) (residu : list Z) (a : Z) : IntRNS * list Z :=
+Definition int_first (hr : bool) (o : first_op) (S : IntRNS) (residu : list Z) (a : Z) : IntRNS * option (list Z) :=
   match o with
-  | Fmix => int_RnsToMixedRadix S residu
-  | Fring => let '(S', v) := int_RnsToRing S residu in (S', [v])
-  | Frecip => let '(S', ck) := int_Reciprocals S in (S', ck_canon (i_primes S') ck)
-  | Frecipi => let '(S', ck) := int_Reciprocals S in (S', last1 (ck_canon (i_primes S') ck))   (* reciprocal(n-1) *)
-  | Fprod => let '(S', p) := int_product S in (S', [p])
-  | Frns => (S, int_RingToRns S a)
+  | Fmix => int_RnsToMixedRadix hr S residu
+  | Fring => let '(S', v) := int_RnsToRing hr S residu in (S', option_map (fun v => [v]) v)
+  | Frecip => let '(S', ck) := int_Reciprocals S in (S', Some (ck_canon (i_primes S') ck))
+  | Frecipi => let '(S', ck) := int_Reciprocals S in (S', Some (last1 (ck_canon (i_primes S') ck)))   (* reciprocal(n-1) *)
+  | Fprod => let '(S', p) := int_product S in (S', Some [p])
+  | Frns => (S, Some (int_RingToRns S a))
   end.
 
-(* int: (mixrad, V, P, [(rns(a_j), back_j)], ck, V2, P2, first) *)
-Definition int_run (src : cksrc) (mk : list Z -> IntRNS) (o : first_op) (h : hist) (primes other residu als : list Z)
-  : list Z * Z * Z * list (list Z * Z) * list Z * Z * Z * list Z :=
-  let S00 := int_obtain src mk h primes other in
-  let '(S0, first) := int_first o S00 residu (hd 0 als) in
-  let '(S1, mix) := int_RnsToMixedRadix S0 residu in
-  let '(S2, V) := int_RnsToRing S1 residu in
+(* everything the harness prints for one case, in its order; None = some call of the sequence has no defined answer.
+   (mixrad, V, P, [(rns(a_j), back_j)], ck, V2, primes as the accessors see them, ck again, V3 from an oversized digit array, P2, first) *)
+Definition int_run (f : isrc) (mk : list Z -> IntRNS) (o : first_op) (h : hist) (primes other residu als : list Z)
+  : option (list Z * Z * Z * list (list Z * Z) * list Z * Z * list Z * list Z * Z * Z * list Z) :=
+  let hr := is_head f in
+  let S00 := int_obtain f mk h primes other in
+  let '(S0, first) := int_first hr o S00 residu (hd 0 als) in
+  let '(S1, mix) := int_RnsToMixedRadix hr S0 residu in
+  let '(S2, V) := int_RnsToRing hr S1 residu in
   let '(S3, P) := int_product S2 in
-  let '(S3', rrs) := int_back S3 als in
+  let '(S3', rrs) := int_back hr S3 als in
   let '(S4, ck) := int_Reciprocals S3' in
-  let '(S5, V2) := int_RnsToRing S4 residu in
-  let '(S6, P2) := int_product S5 in
-  (mix, V, P, rrs, ck_canon primes ck, V2, P2, first).
+  let '(S5, V2) := int_RnsToRing hr S4 residu in
+  let '(S6, ck2) := int_Reciprocals S5 in
+  let '(S7, mix2) := int_RnsToMixedRadix hr S6 residu in
+  let V3 := obind mix2 (fun m => int_MixedRadixToRing S7 (m ++ [5; 5; 5])) in
+  let '(S8, P2) := int_product S7 in
+  obind first (fun first => obind mix (fun mix => obind V (fun V => obind rrs (fun rrs => obind V2 (fun V2 => obind V3 (fun V3 =>
+    Some (mix, V, P, rrs, ck_canon (i_primes S4) ck, V2, i_primes S8, ck_canon (i_primes S5) ck2, V3, P2, first))))))).
 
-Definition dom_obtain (h : hist) (primes other : list Z) : DomRNS :=
-  let warm S := fst (dom_RnsToRing S (ones (length (d_primes S)))) in
+Definition dom_obtain (f : dsrc) (h : hist) (primes other : list Z) : DomRNS :=
+  let use ps S := fst (dom_RnsToRing S (ones (length ps))) in
+  let set := dom_setPrimes (ds_set f) in
   match h with
   | Hfresh => dom_mk primes
-  | Hreuse => warm (dom_mk primes)
-  | Hcopycold => dom_copy (dom_mk primes)
-  | Hcopywarm => dom_copy (warm (dom_mk primes))
-  | Hcopy2 => dom_copy (dom_copy (warm (dom_mk primes)))
-  | Hassigncold => dom_assign dom_default (dom_mk primes)
-  | Hassignwarm => dom_assign (warm (dom_mk other)) (warm (dom_mk primes))
-  | Hsetcold => dom_setPrimes dom_default primes
-  | Hsetwarm => dom_setPrimes (warm (dom_mk other)) primes
+  | Hreuse => use primes (dom_mk primes)
+  | Hcopycold => dom_copy (ds_copy f) (dom_mk primes)
+  | Hcopywarm | Hcopymod => dom_copy (ds_copy f) (use primes (dom_mk primes))
+  | Hcopy2 => dom_copy (ds_copy f) (dom_copy (ds_copy f) (use primes (dom_mk primes)))
+  | Hassigncold => dom_assign (ds_assign f) dom_default (dom_mk primes)
+  | Hassignwarm | Hassignsame => dom_assign (ds_assign f) (use other (dom_mk other)) (use primes (dom_mk primes))
+  | Hassigncc => dom_assign (ds_assign f) (fst (dom_Reciprocals (use other (dom_mk other)))) (dom_mk primes)
+  | Hsetcold => set dom_default primes
+  | Hsetwarm | Hsetsame => set (use other (dom_mk other)) primes
+  | Hsetback => set (fst (dom_Reciprocals (use other (set (use primes (dom_mk primes)) other)))) primes
+  | Hdfltcopyset => set (dom_copy (ds_copy f) dom_default) primes
   end.
 
-Fixpoint dom_back (S : DomRNS) (als : list Z) : DomRNS * list (list Z * Z) :=
+Fixpoint dom_back (S : DomRNS) (als : list Z) : DomRNS * option (list (list Z * Z)) :=
   match als with
-  | [] => (S, [])
+  | [] => (S, Some [])
   | a :: tl =>
       let rr := dom_RingToRns S a in
       let '(S1, w) := dom_RnsToRing S rr in
       let '(S2, rest) := dom_back S1 tl in
-      (S2, (rr, w) :: rest)
+      (S2, obind w (fun w => obind rest (fun rest => Some ((rr, w) :: rest))))
   end.
 
-Definition dom_first (o : first_op) (S : DomRNS) (residu : list Z) (a : Z) : DomRNS * list Z :=
+Definition dom_first (o : first_op) (S : DomRNS) (residu : list Z) (a : Z) : DomRNS * option (list Z) :=
   match o with
   | Fmix | Fprod => dom_RnsToMixedRadix S residu
-  | Fring => let '(S', v) := dom_RnsToRing S residu in (S', [v])
-  | Frecip => let '(S', ck) := dom_Reciprocals S in (S', tl ck)
-  | Frecipi => let '(S', ck) := dom_Reciprocals S in (S', last1 (tl ck))
-  | Frns => (S, dom_RingToRns S a)
+  | Fring => let '(S', v) := dom_RnsToRing S residu in (S', option_map (fun v => [v]) v)
+  | Frecip => let '(S', ck) := dom_Reciprocals S in (S', Some (tl ck))
+  | Frecipi => let '(S', ck) := dom_Reciprocals S in (S', Some (last1 (tl ck)))
+  | Frns => (S, Some (dom_RingToRns S a))
   end.
 
-Definition dom_run (o : first_op) (h : hist) (primes other residu als : list Z)
-  : list Z * Z * list (list Z * Z) * list Z * Z * list Z :=
-  let S00 := dom_obtain h primes other in
+(* (mixrad, V, [(rns(a_j), back_j)], ck, V2, primes as the accessors see them, ck again, V3 = MixedRadixToRing(mixrad), mixrad again twice, first) *)
+Definition dom_run (f : dsrc) (o : first_op) (h : hist) (primes other residu als : list Z)
+  : option (list Z * Z * list (list Z * Z) * list Z * Z * list Z * list Z * Z * list Z * list Z * list Z) :=
+  let S00 := dom_obtain f h primes other in
   let '(S0, first) := dom_first o S00 residu (hd 0 als) in
   let '(S1, mix) := dom_RnsToMixedRadix S0 residu in
   let '(S2, V) := dom_RnsToRing S1 residu in
   let '(S2', rrs) := dom_back S2 als in
   let '(S3, ck) := dom_Reciprocals S2' in
   let '(S4, V2) := dom_RnsToRing S3 residu in
-  (mix, V, rrs, tl ck, V2, first).
+  let '(S5, ck2) := dom_Reciprocals S4 in
+  let V3 := obind mix (fun m => dom_MixedRadixToRing S5 m) in
+  let '(S6, mixE) := dom_RnsToMixedRadix S5 residu in
+  let '(S7, mixO) := dom_RnsToMixedRadix S6 residu in
+  obind first (fun first => obind mix (fun mix => obind V (fun V => obind rrs (fun rrs => obind V2 (fun V2 => obind V3 (fun V3 =>
+  obind mixE (fun mixE => obind mixO (fun mixO =>
+    Some (mix, V, rrs, tl ck, V2, d_primes S7, tl ck2, V3, mixE, mixO, first))))))))).
+
+(* the exception cases of RNSsystem::MixedRadixToRing driven by the harness: a system without primes; a digit array of the wrong size *)
+Definition dom_exc_run (f : dsrc) (primes mixrad : list Z) : option Z :=
+  dom_MixedRadixToRing (match primes with [] => dom_default | _ => dom_mk primes end) mixrad.
 
 (* ------------------------------------------------------------------------------------------
    RNSsystem<RING, ModularBalanced<T>>: the same code, every domain operation returning the representative of least
